@@ -32,13 +32,26 @@ def bank_queue(ctx):
         c1 = find_connect(v, src=req, dst=fk + ".sink")
         c2 = find_connect(v, src=fk + ".source", dst=bk + ".sink")
         ob.instance("%s: queue connects" % tag, [str(c.stmt) for c in c1 + c2])
-        if len(c1) != 1 or c1[0].guards or not (c1[0].stmt.keep is None or {"valid", "ready", "we", "addr"} <= c1[0].stmt.keep) or \
-                (c1[0].stmt.omit and c1[0].stmt.omit & {"valid", "ready", "we", "addr"}):
+        other = [l for l in v.leaves if l.kind == "assign" and (key(l.target).startswith(fk + ".sink.") or key(l.target).startswith(bk + ".sink."))]
+        # payload fields of the first stage that are computed from the request itself (e.g. the address stored as separate row / column fields) are another
+        # representation of the same entry; anything else driving a queue input is a second writer
+        derived = [l for l in other if key(l.target).startswith(fk + ".sink.") and key(l.target).rsplit(".", 1)[-1] not in ("valid", "ready", "first", "last")
+                   and not l.guards and isinstance(l.value, V) and any(s_.startswith(req + ".") for s_ in support(l.value))
+                   and not any((not s_.startswith(req + ".")) and (v.drivers(s_) or s_.startswith((fk + ".", bk + "."))) for s_ in support(l.value))]
+        hs_ok = len(c1) == 1 and not c1[0].guards and (c1[0].stmt.keep is None or {"valid", "ready"} <= c1[0].stmt.keep) and \
+            not (c1[0].stmt.omit and c1[0].stmt.omit & {"valid", "ready"})
+        full_ok = hs_ok and (c1[0].stmt.keep is None or {"we", "addr"} <= c1[0].stmt.keep) and not (c1[0].stmt.omit and c1[0].stmt.omit & {"we", "addr"})
+        if not full_ok:
+            if hs_ok and derived:
+                ob.unknown("%s: the request enters the look-ahead FIFO as %s plus derived payload fields %s: this entry layout is not understood" %
+                           (tag, [str(c.stmt) for c in c1], [key(l.target) for l in derived]))
+                return
             ob.refute("req-connect", "the request record is not connected to the look-ahead FIFO with valid/ready/we/addr: %s" % [str(c.stmt) for c in c1], None)
         if len(c2) != 1 or c2[0].guards or c2[0].stmt.keep is not None or c2[0].stmt.omit:
             ob.refute("fifo-connect", "the look-ahead FIFO is not connected whole to the one-entry buffer: %s" % [str(c.stmt) for c in c2], None)
-        other = [l for l in v.leaves if l.kind == "assign" and (key(l.target).startswith(fk + ".sink.") or key(l.target).startswith(bk + ".sink."))]
         for l in other:
+            if l in derived and not full_ok:
+                continue
             ob.refute("queue-extra-driver", "%s is also driven outside the queue connects: %s" % (key(l.target), l), l.loc)
         # cone of influence
         cmdk = key(R.cmd)
